@@ -1,5 +1,6 @@
 import Huginn.Lemmas.TcpWin
 import Huginn.Lemmas.TcpMain
+import Huginn.Lemmas.TcpDecode
 set_option linter.unusedSimpArgs false
 /-!
 C03 — TCP packets are rendered into the p0f signature their headers define.
@@ -7,7 +8,7 @@ Property theorems only (helper lemmas live in `Huginn/Lemmas/Tcp*.lean`).
 -/
 namespace Huginn.Props.C03
 open Huginn.Sig Huginn.TcpExtract Huginn.TcpSig.Spec Huginn.Gen Huginn.Lemmas.TcpWin
-open Huginn.Lemmas.TcpWalk Huginn.Lemmas.TcpQuirks Huginn.Lemmas.TcpMain
+open Huginn.Lemmas.TcpWalk Huginn.Lemmas.TcpQuirks Huginn.Lemmas.TcpMain Huginn.Lemmas.TcpDecode
 
 /-! ### TTL classifier (all 256 values, over the regenerated band table) -/
 
@@ -382,6 +383,57 @@ theorem render_meets_spec_partial (f : Fields) (hwf : f.WF) (hs : Specified f)
       rw [Bool.eq_false_iff]; intro h; rw [hbv] at h; exact hvalid h
     rw [process_invalid f hproto hfrag' hv]
     simp [hvalid, Nothing]
+
+/-! ### from packet bytes to header fields -/
+
+/-- Every record the frame decoder (the model of the pnet accessors) produces has the field widths
+the theorems assume — for every byte string of any length. -/
+theorem decodeFields_wf (v6 : Bool) (b : Bytes) (f : Fields) (hb : BytesOk b)
+    (h : decodeFields v6 b = some (.ok f)) : f.WF := by
+  unfold decodeFields at h
+  have key : ∀ (ip : IpHdr) (pl : Bytes),
+      (ip.ttl < 256 ∧ ip.ihl < 16 ∧ ip.ecn < (if ip.v6 then 256 else 4) ∧ ip.flags < 8 ∧ ip.ipid < 65536 ∧
+        ip.fragOff < 8192 ∧ ip.flow < 1048576 ∧ ip.proto < 256) → BytesOk pl →
+      (match decodeTcp pl with
+        | none => some (Except.error Err.parse)
+        | some t => some (Except.ok ({ ip := ip, tcp := t } : Fields))) = some (Except.ok f) → f.WF := by
+    intro ip pl hip hpl hm
+    cases ht : decodeTcp pl with
+    | none => rw [ht] at hm; cases hm
+    | some t =>
+      rw [ht] at hm
+      simp only [Option.some.injEq, Except.ok.injEq] at hm
+      subst hm
+      obtain ⟨h1, h2, h3, h4, h5, h6, h7, h8, h9, h10⟩ := decodeTcp_wf pl hpl t ht
+      obtain ⟨a1, a2, a3, a4, a5, a6, a7, a8⟩ := hip
+      exact ⟨a1, a2, a3, a4, a5, a6, a7, a8, h1, h2, h3, h4, h5, h6, h7, h8, h9, h10⟩
+  cases v6
+  · simp only [Bool.false_eq_true, if_false] at h
+    cases hd : decodeIp4 b with
+    | none => rw [hd] at h; cases h
+    | some x =>
+      obtain ⟨ip, pl⟩ := x
+      rw [hd] at h
+      obtain ⟨h6, a1, a2, a3, a4, a5, a6, a7, a8, hpl⟩ := decodeIp4_wf b hb ip pl hd
+      exact key ip pl ⟨a1, a2, by rw [h6]; exact a3, a4, a5, a6, a7, a8⟩ hpl h
+  · simp only [if_true] at h
+    cases hd : decodeIp6 b with
+    | none => rw [hd] at h; cases h
+    | some x =>
+      obtain ⟨ip, pl⟩ := x
+      rw [hd] at h
+      obtain ⟨h6, a1, a2, a3, a4, a5, a6, a7, a8, hpl⟩ := decodeIp6_wf b hb ip pl hd
+      exact key ip pl ⟨a1, a2, by rw [h6]; exact a3, a4, a5, a6, a7, a8⟩ hpl h
+
+/-- **C03 on packets.** For every IPv4 / IPv6 packet (any bytes, any length) that pnet accepts and
+that lies in the domain of the statement and outside the known-finding classes, what the model of
+`process_ipv4_packet` / `process_ipv6_packet` reports is what the packet's header fields define. -/
+theorem packet_meets_spec_partial (v6 : Bool) (b : Bytes) (f : Fields) (hb : BytesOk b)
+    (hd : decodeFields v6 b = some (.ok f)) (hs : Specified f) (hk : ¬ Huginn.KF.C03.any f) :
+    ∃ o, processPacket v6 b = some o ∧ Holds f o := by
+  refine ⟨process f, ?_, render_meets_spec_partial f (decodeFields_wf v6 b f hb hd) hs hk⟩
+  unfold processPacket
+  rw [hd]; rfl
 
 /-! ### non-vacuity and the known-finding witnesses -/
 
